@@ -171,6 +171,17 @@ CHECKS = {
         technique="deterministic simulation: seeded lock-step differential histories with inner-store fault injection",
         design_ref="DESIGN.md 6, 7 (C12)",
     ),
+    "C16": dict(
+        engine="K",
+        category="exploration",
+        text=("Seeded local-store configurations (absolute / relative / trailing separator / nested non-existing / symlinked "
+              "parent directories, every cache_objects value) x histories of keep, load, chdir, restart in the same or another "
+              "cwd, and switches between two data views on one internal directory, through the public API in forked "
+              "processes; round trip, no recomputation across views, independent per-view path tables."),
+        note="Trusts: a fresh process elsewhere is configured with the same physical directories; the execution log of the kept function.",
+        technique="deterministic simulation: seeded configuration x process/cwd histories against per-view model tables",
+        design_ref="DESIGN.md 6, 7 (C16)",
+    ),
     "C19": dict(
         engine="K",
         category="exploration",
